@@ -248,6 +248,18 @@ func (schemaCompiler) typeConstraintForJSONTypes(node schema.Node, val bytes.Byt
 		t := json.NewJsonType(val)                         // can panic
 		if mixedNode, ok := node.(*schema.MixedNode); ok { // defined json type for mixed node
 			mixedNode.SetJsonType(t)
+			// The rule-set describes a value of that type: its rules have to suit
+			// the type, like the rules of a node with an example of that type (the
+			// checker can't tell a declared type from the type of the example).
+			err := node.ConstraintMap().Each(func(_ constraint.Type, v constraint.Constraint) error {
+				if !v.IsJsonTypeCompatible(t) {
+					return errors.Format(errors.ErrUnexpectedConstraint, v.Type().String(), valStr)
+				}
+				return nil
+			})
+			if err != nil {
+				panic(err)
+			}
 		} else if t != node.Type() { // check json type for non-mixed node
 			panic(errors.Format(errors.ErrIncompatibleTypes, t.String()))
 		}
